@@ -663,7 +663,9 @@ RULE = ("register systems of three families - overlapping IntReg/MaskedIntReg/Fl
 def evaluate(ck, binary, cases):
     impl = ck.run_impl(binary, [c.line for c in cases])
     ck.phase("impl")
-    model = ck.run_model_terms(["Cache"], [c.term for c in cases], per_eval=100)
+    model = []
+    for i in range(0, len(cases), 6400):          # bounded coqc memory: 16 shards x 400 terms at a time
+        model += ck.run_model_terms(["Cache"], [c.term for c in cases[i:i + 6400]], per_eval=100)
     ck.phase("model")
     # shrink the first failing histories so that the replay is minimal
     bad = [i for i, (c, o) in enumerate(zip(cases, impl)) if predicate(c, o) is not None][:3]
